@@ -1,3 +1,4 @@
+mod cc;
 mod rt;
 use ntcore::domain::Tier;
 use std::path::PathBuf;
@@ -12,6 +13,24 @@ fn main() {
             let out = PathBuf::from(get("--out", &format!("/verif/generated/{}/rt", tier.name())));
             let n: usize = get("--crates", if tier == Tier::Quick { "16" } else { "48" }).parse().unwrap();
             rt::generate(tier, &out, n);
+        }
+        "cc" => {
+            let tier = Tier::parse(&get("--tier", "quick"));
+            let prop = get("--prop", "C08");
+            let out = PathBuf::from(get("--out", &format!("/verif/generated/{}/cc_{}", tier.name(), prop)));
+            let n: usize = get("--crates", "16").parse().unwrap();
+            let feat_all = rt::NUTYPE_DEP.to_string();
+            let pfx = format!("{}{}", prop.to_lowercase(), &tier.name()[..1]);
+            match prop.as_str() {
+                "C02" => cc::emit(&cc::Emit { out: &out, prefix: pfx, ncrates: n, nutype_dep: feat_all, nostd: false, extra_deps: cc::STD_EXTRA_DEPS.into(), minimal_prelude: false, crate_header: String::new() }, &cc::c02_cases(tier), serde_json::json!({"prop": "C02"})),
+                "C08" => cc::emit(&cc::Emit { out: &out, prefix: pfx, ncrates: n, nutype_dep: feat_all, nostd: false, extra_deps: cc::STD_EXTRA_DEPS.into(), minimal_prelude: false, crate_header: String::new() }, &cc::c08_cases(tier), serde_json::json!({"prop": "C08"})),
+                "C08T" => cc::emit(&cc::Emit { out: &out, prefix: pfx, ncrates: 1, nutype_dep: feat_all, nostd: false, extra_deps: cc::STD_EXTRA_DEPS.into(), minimal_prelude: false, crate_header: String::new() }, &cc::c08_test_cases(tier), serde_json::json!({"prop": "C08T"})),
+                "C05" => cc::emit(&cc::Emit { out: &out, prefix: pfx, ncrates: n, nutype_dep: feat_all, nostd: false, extra_deps: cc::STD_EXTRA_DEPS.into(), minimal_prelude: false, crate_header: String::new() }, &cc::c05_cases(tier), serde_json::json!({"prop": "C05"})),
+                "C05N" => cc::emit(&cc::Emit { out: &out, prefix: pfx, ncrates: 1, nutype_dep: "nutype = { path = \"/repo/nutype\" }".into(), nostd: false, extra_deps: cc::STD_EXTRA_DEPS.into(), minimal_prelude: false, crate_header: String::new() }, &cc::c05_nofeature_cases(), serde_json::json!({"prop": "C05N"})),
+                "C15" => cc::emit(&cc::Emit { out: &out, prefix: pfx, ncrates: n, nutype_dep: "nutype = { path = \"/repo/nutype\", default-features = false, features = [\"serde\", \"arbitrary\"] }".into(), nostd: true, extra_deps: "serde = { version = \"1\", default-features = false, features = [\"derive\"] }\narbitrary = \"1.3\"\n".into(), minimal_prelude: true, crate_header: cc::c15_header() }, &cc::c15_cases(tier), serde_json::json!({"prop": "C15"})),
+                "C15S" => cc::emit(&cc::Emit { out: &out, prefix: pfx, ncrates: n, nutype_dep: "nutype = { path = \"/repo/nutype\", features = [\"serde\", \"arbitrary\"] }".into(), nostd: false, extra_deps: "serde = { version = \"1\", features = [\"derive\"] }\narbitrary = \"1.3\"\n".into(), minimal_prelude: true, crate_header: cc::c15_header() }, &cc::c15_cases(tier), serde_json::json!({"prop": "C15S"})),
+                _ => { eprintln!("unknown cc prop"); std::process::exit(2); }
+            }
         }
         _ => {
             eprintln!("usage: ntgen rt --tier quick|thorough [--out dir] [--crates n]");
